@@ -26,7 +26,7 @@ def plan(tier, seed):
 
 def thresholds(tier):
   t = {"designs": 120, "elaborations": 1500, "nets_compared": 10000, "designs_with_10_orders": 100, "member_value_comparisons": 5000,
-       "adjacency_comparisons": 1000, "sibling_chain_designs": 80}
+       "adjacency_comparisons": 1000, "sibling_chain_designs": 80, "interface_connections_in_both_orientations": 80}
   if tier == "thorough":
     t = {k: v * 12 for k, v in t.items()}
   return t
@@ -261,9 +261,68 @@ def run_chain(sh, case):
     G.unload(mod)
 
 
+IFC_SWAP_SRC = """
+from pymtl3 import *
+class OIfc(Interface):
+  def construct(s, fields):
+    for f in fields: setattr(s, f, OutPort(8))
+class IIfc(Interface):
+  def construct(s, fields):
+    for f in fields: setattr(s, f, InPort(8))
+class P(Component):
+  def construct(s, fields):
+    s.in_ = InPort(8); s.o = OIfc(fields)
+    for k, f in enumerate(fields):
+      getattr(s.o, f).__ifloordiv__(s.in_) if False else connect(getattr(s.o, f), s.in_)
+class Q(Component):
+  def construct(s, fields):
+    s.i = IIfc(fields); s.outs = [OutPort(8) for _ in fields]
+    for k, f in enumerate(fields): connect(s.outs[k], getattr(s.i, f))
+class ITop(Component):
+  def construct(s, fp, fq, swap):
+    s.in_ = InPort(8); s.p = P(fp); s.q = Q(fq); s.outs = [OutPort(8) for _ in fq]
+    s.p.in_ //= s.in_
+    for k in range(len(fq)): s.outs[k] //= s.q.outs[k]
+    if swap: connect(s.q.i, s.p.o)
+    else:    connect(s.p.o, s.q.i)
+"""
+
+
+def run_ifc_swap(sh, case):
+  """a whole-interface connection written in both orientations: same nets and writers, or the same refusal - also when one of the
+  two interfaces has ports the other one lacks"""
+  rng = sh.rng("ifcswap", case)
+  names = ["a", "b", "c", "d"]
+  fp = rng.sample(names, rng.randrange(1, 4))
+  how = rng.choice(["same", "same", "p-has-more", "q-has-more"])
+  fq = list(fp)
+  extra = [n for n in names if n not in fp]
+  if how == "p-has-more" and len(fp) >= 2: fq = fp[:-1]
+  elif how == "q-has-more" and extra: fq = fp + extra[:1]
+  else: how = "same"
+  rng.shuffle(fq)
+  mod = G.load_source(IFC_SWAP_SRC, "c08ifc")
+  try:
+    res = []
+    for swap in (False, True):
+      try:
+        top = mod.ITop(fp, fq, swap); top.elaborate()
+        nets = sorted((repr(w), tuple(sorted(repr(x) for x in net))) for w, net in top.get_all_value_nets())
+        res.append(("elaborated", nets))
+      except Exception as e:
+        res.append((type(e).__name__, None))
+    sh.count("interface_connections_in_both_orientations"); sh.count("ifc_swap:" + how + ":" + res[0][0])
+    if res[0] != res[1]:
+      sh.violation("swapping-the-sides-of-an-interface-connection-changes-the-outcome", {"ports_of_p.o": fp, "ports_of_q.i": fq,
+                   "connect(s.p.o, s.q.i)": res[0][0], "connect(s.q.i, s.p.o)": res[1][0], "source": IFC_SWAP_SRC}, case=("ifcswap", case))
+  finally:
+    G.unload(mod)
+
+
 def run_shard(sh):
   for case in range(6 if sh.tier == "quick" else 60):
     run_chain(sh, sh.idx * 1000 + case)
+    run_ifc_swap(sh, sh.idx * 1000 + case)
   for case in range(sh.params["designs"]):
     if sh.only is not None and str(case) != str(sh.only).strip('"'):
       continue
